@@ -25,6 +25,9 @@ HOSTS = {
     "rpc": ("JSIGHT 0.3\nURL /r\n  Protocol json-rpc-2.0\n  Method m\n    Description\n%s    Result\n    {}\n",
             lambda c: next(iter(c["interactions"].values())).get("description")),
     "tag": ("JSIGHT 0.3\nTAG @t\n  Description\n%s", lambda c: c["tags"]["@t"].get("description")),
+    # the same Description directive expanded twice from one macro: both copies must read the same text
+    "macro_twice": ("JSIGHT 0.3\nMACRO @d\n(\n  Description\n%s)\nGET /first\n  PASTE @d\n  200 any\nGET /second\n  PASTE @d\n  200 any\n",
+                    lambda c: (c["interactions"]["http GET /first"].get("description"), c["interactions"]["http GET /second"].get("description"))),
 }
 SAFE_LINES = ["text one", "  indented two", "", "    deeper", "\ttabbed", "# not a comment", "x  y", "  ", "1 is a digit", "- item"]
 PAREN_ONLY_LINES = ["GET it", "URL shortener", "200 reasons", "Description of it", "Body"]
@@ -54,6 +57,26 @@ def table_description(chk, tier):
             s, textfn.dec(r.get("out", [])), textfn.dec(r.get("out2", [])), textfn.dec(r.get("alt", [])), rep["why"]),
             {"kind": "description_fn", "text": s, "why": rep["why"], "signature": sig}, sig)
     chk.nontrivial.update("d:" + s for s in ins[:3000])
+    # second table: texts built from whole lines (deeper structure than the character bound reaches)
+    pool = ["a", " a", "  a", "   b", " ", "  ", "", "\ta", "b"]
+    nl = 4 if tier == "thorough" else 3
+    ins2 = sorted(set("\n".join(t) for n in range(1, nl + 1) for t in itertools.product(pool, repeat=n)))
+    o1 = textfn.text_rows("description", ins2)
+    outs = [dec_text(o) for o in o1]
+    o2 = textfn.text_rows("description", outs)
+    o3 = textfn.text_rows("description", ["(\n" + s + "\n)" for s in ins2])
+    rows = []
+    for s, a, b, c in zip(ins2, o1, o2, o3):
+        rows.append({"in": textfn.enc(s), "out": textfn.enc(dec_text(a)), "err": bool(a.get("err")),
+                     "out2": textfn.enc(dec_text(b)), "alt": textfn.enc(dec_text(c)), "alterr": bool(c.get("err")),
+                     "panic": bool(a.get("panic") or b.get("panic") or c.get("panic"))})
+    for rep in textfn.judge(chk, "description_lines", ["a", "b", " ", "\t", "\n"], 10 ** 6, rows, "description_line_table"):
+        s = ins2[rep["row"] - 1] if rep["row"] else ""
+        r = rows[rep["row"] - 1] if rep["row"] else {}
+        sig = {"level": "function", "what": rep["why"], "cls": desc_class(s)}
+        chk.violation("description(%r) = %r (twice: %r, parenthesised: %r): %s" % (
+            s, textfn.dec(r.get("out", [])), textfn.dec(r.get("out2", [])), textfn.dec(r.get("alt", [])), rep["why"]),
+            {"kind": "description_fn", "text": s, "why": rep["why"], "signature": sig}, sig)
 
 
 def desc_class(s):
@@ -105,9 +128,10 @@ def e2e_descriptions(chk, tier, rnd):
             par = ind + "(\n" + "".join(ind + ln + "\n" for ln in text.split("\n")) + ind + ")\n"
             cb, cp = "b%d" % n, "p%d" % n
             n += 1
+            nl = rnd.choice(["\n", "\n", "\r\n", "\r"])       # the whole file in one newline convention
             if bare_ok:
-                cases.append(rel.case(cb, tpl % bare))
-            cases.append(rel.case(cp, tpl % par))
+                cases.append(rel.case(cb, (tpl % bare).replace("\n", nl)))
+            cases.append(rel.case(cp, (tpl % par).replace("\n", nl)))
             meta[n] = (text, host, get, cb if bare_ok else None, cp, ind)
     obs = harness("run", cases)
     rows, src = [], []
@@ -116,7 +140,10 @@ def e2e_descriptions(chk, tier, rnd):
             o = obs[cid]
             if o["outcome"] == "ok":
                 try:
-                    return get(json.loads(o["json"])) or "", False, False
+                    v = get(json.loads(o["json"]))
+                    if isinstance(v, tuple):      # two expansions of one macro: they must agree; a disagreement is
+                        v = v[0] if v[0] == v[1] else "<<first: %r second: %r>>" % v   # shown as a text no NF can equal
+                    return v or "", False, False
                 except Exception:
                     return "", True, False
             return "", True, o["outcome"] != "error"
